@@ -478,8 +478,15 @@ where
         n: u64,
         m: &AssignedBigUint<F>,
     ) -> Result<AssignedBigUint<F>, Error> {
+        // Exponents 0 and 1 involve no modular multiplication below, we reduce explicitly so
+        // that the result is `x^n % m` for them as well (`1 % m` and `x % m` respectively).
         if n == 0 {
-            return self.assign_fixed_biguint(layouter, BigUint::one());
+            let one = self.assign_fixed_biguint(layouter, BigUint::one())?;
+            return self.div_rem(layouter, &one, m).map(|(_, r)| r);
+        }
+
+        if n == 1 {
+            return self.div_rem(layouter, x, m).map(|(_, r)| r);
         }
 
         let mut n = n;
